@@ -20,6 +20,7 @@ import (
 	"bytes"
 	"encoding/binary"
 	"errors"
+	"unicode"
 	"unicode/utf16"
 
 	"github.com/sassoftware/relic/v8/lib/redblack"
@@ -224,5 +225,22 @@ func lessDirEnt(i, j interface{}) bool {
 	if e.NameLength != f.NameLength {
 		return e.NameLength < f.NameLength
 	}
-	return e.name < f.name
+	for k := 0; k < len(e.NameRunes) && k < int(e.NameLength/2); k++ {
+		a, b := upperUnit(e.NameRunes[k]), upperUnit(f.NameRunes[k])
+		if a != b {
+			return a < b
+		}
+	}
+	return false
+}
+
+// upper-case one UTF-16 code unit (simple case mapping; surrogates unchanged)
+func upperUnit(u uint16) uint16 {
+	if u >= 0xd800 && u <= 0xdfff {
+		return u
+	}
+	if r := unicode.ToUpper(rune(u)); r >= 0 && r <= 0xffff {
+		return uint16(r)
+	}
+	return u
 }
